@@ -9,6 +9,20 @@ from torchtree.distributions.distributions import DistributionModel
 from torchtree.typing import ID
 
 
+def _log_q(q: DistributionModel, samples: torch.Size) -> torch.Tensor:
+    """Log density of the variational distribution with one entry per sample.
+
+    A joint distribution returns a tensor of shape ``samples`` but a plain
+    :class:`~torchtree.distributions.distributions.Distribution` returns
+    ``samples + event_shape``: the event dimensions are summed so that
+    subtracting it from ``p()`` (shape ``samples``) never broadcasts.
+    """
+    log_q = q()
+    if log_q.dim() > len(samples):
+        log_q = log_q.reshape(log_q.shape[: len(samples)] + (-1,)).sum(-1)
+    return log_q
+
+
 @register_class
 class ELBO(CallableModel):
     r"""Class representing the evidence lower bound (ELBO) objective.
@@ -58,14 +72,14 @@ class ELBO(CallableModel):
         samples = kwargs.get('samples', self.samples)
         if self.score:
             self.q.sample(samples)
-            log_q = self.q()
+            log_q = _log_q(self.q, samples)
             with torch.no_grad():
                 cost = self.p() - log_q
             lp = (cost * log_q).mean()
         elif len(samples) == 2:
             # Multi sample
             self.q.rsample(samples)
-            log_q = self.q()
+            log_q = _log_q(self.q, samples)
             log_p = self.p()
             lp = (
                 torch.logsumexp(log_p - log_q, -1)
@@ -77,7 +91,7 @@ class ELBO(CallableModel):
             if self.entropy:
                 lp = self.p().mean() + self.q.entropy().sum()
             else:
-                lp = (self.p() - self.q()).mean()
+                lp = (self.p() - _log_q(self.q, samples)).mean()
         return lp
 
     def handle_parameter_changed(self, variable, index, event):
@@ -136,7 +150,7 @@ class KLpq(CallableModel):
     def _call(self, *args, **kwargs) -> torch.Tensor:
         samples = kwargs.get('samples', self.samples)
         self.q.sample(samples)
-        log_w = self.p() - self.q()
+        log_w = self.p() - _log_q(self.q, samples)
         log_w_norm = log_w - torch.logsumexp(log_w, -1)
         return torch.sum(log_w_norm.exp() * log_w)
 
@@ -188,7 +202,7 @@ class KLpqImportance(CallableModel):
         self.q.sample(samples)
         with torch.no_grad():
             log_p = self.p()
-        log_q = self.q()
+        log_q = _log_q(self.q, samples)
         log_w = log_p - log_q.detach()
         w = torch.exp(log_w - log_w.max())
         w_norm = w / w.sum()
